@@ -45,9 +45,9 @@ package absnfs
 // ---- sixth round (C01 C02 C03 C06 C11 C22)
 // C03 - CreateWithContext trimmed white space off the name it was given, so the handler's look-before-create examined
 // one name and the backend created (and truncated) another. The object created is the one named by the arguments the
-// function was CALLED with (entry_name: a parameter is an assignable local):
-//@ also AbsfsNFS.CreateWithContext
-//@ callassert absfs.FS.Create : [creates-exactly-the-name-given] {C03, C07} arg1 == sanitized(dir.path, entry_name)
+// function was CALLED with (in a call-site clause a parameter's name denotes the value it was called with):
+// -> CreateWithContext#backend-path (zz_contracts_handlers_verif.go) now belongs to C03's check too; a second clause saying
+// the same would be discharged by the first one's assumption and report nothing under C03.
 // C02 - the handle table kept the node it already had for a path when the path was looked up again after the
 // object had been replaced by one of another type (file removed, directory made): Allocate#live (the table entry is
 // the node just handed in) is in C02's check as well.
